@@ -1,6 +1,17 @@
 """C16 - Schemas and columns survive persistence round-trips unchanged.
 
-(work in progress: gen only)"""
+Cases (JSON):
+  {"kind": "schema", "name": ev, "aliases": ev, "pk": ev, "stats": [ev, ev, ev, ev],
+   "cols": [{"kw": [[field, ev], ...]}, ...], "records": [[[key, ev], ...], ...], "focus": null | "<guarded attribute>"}
+  {"kind": "flat", "cls": "<column class>", "kw": [[field, ev], ...], "extra": "<which extra arguments>", "focus": null}
+ev = encoded Python value:  ["n"] None | ["b", bool] | ["i", int] | ["f", float.hex] | ["s", str] | ["y", [bytes]] |
+  ["d", unscaled, exponent] finite Decimal (normalised) | ["D", y, m, d] date | ["T", y, mo, d, h, mi, s, us, tz] datetime |
+  ["t", days, seconds, microseconds] timedelta | ["ty", member] OrsoTypes | ["disp", member] ColumnDisposition |
+  ["exp", is_object, behaviour, column, config_json, ignore_nulls] expectation (object or its dictionary) |
+  ["l", [ev, ...]] list | ["j", json_text] a dict given by its JSON text | ["o", class, repr, truthy] anything else.
+Two encoded values are equal iff the Python values have the same class and compare equal (Decimal by numeric value,
+floats by bits).  A focus case asks only for the one attribute a finding guards; every other case compares every
+other attribute."""
 import dataclasses
 import importlib
 import sys
@@ -8,7 +19,7 @@ import sys
 from vlib import coqlit as L
 
 ID = "C16"
-READY = False
+READY = True
 
 
 # ----------------------------------------------------------------------------------------------
@@ -111,3 +122,1278 @@ def gen(repo):
 
     out.append("Definition decimal_default_precision : Z := %s.  (* decimal.getcontext().prec *)\n" % L.Z(decimal.getcontext().prec))
     return {"C16_Fields": "\n".join(out)}
+
+
+# ----------------------------------------------------------------------------------------------
+# value encoding
+def _norm_dec(d):
+    sign, digits, exp = d.as_tuple()
+    if not isinstance(exp, int):
+        return None
+    u = int("".join(map(str, digits)) or "0")
+    if u == 0:
+        return 0, 0
+    while u % 10 == 0:
+        u //= 10
+        exp += 1
+    return (-u if sign else u), exp
+
+
+def enc(v):
+    """Python value -> ev (canonical: equal ev <=> same class and equal value)."""
+    import datetime
+    import decimal
+    import json
+
+    import orso.schema as S
+    import orso.types as T
+    from data_expectations import Expectation
+
+    if v is None:
+        return ["n"]
+    if isinstance(v, T.OrsoTypes):
+        return ["ty", v.name]
+    if isinstance(v, S.ColumnDisposition):
+        return ["disp", v.name]
+    if type(v) is bool:
+        return ["b", v]
+    if type(v) is int:
+        return ["i", v]
+    if type(v) is float:
+        return ["f", v.hex()]
+    if type(v) is str:
+        return ["s", v]
+    if type(v) is bytes:
+        return ["y", list(v)]
+    if type(v) is decimal.Decimal:
+        n = _norm_dec(v)
+        if n is not None:
+            return ["d", n[0], n[1]]
+    if type(v) is datetime.datetime:
+        return ["T", v.year, v.month, v.day, v.hour, v.minute, v.second, v.microsecond, v.tzinfo is not None]
+    if type(v) is datetime.date:
+        return ["D", v.year, v.month, v.day]
+    if type(v) is datetime.timedelta:
+        return ["t", v.days, v.seconds, v.microseconds]
+    if isinstance(v, Expectation):
+        return ["exp", True, getattr(v.expectation, "value", v.expectation), v.column, json.dumps(v.config, sort_keys=True, default=repr), v.ignore_nulls]
+    if type(v) is dict and "expectation" in v:
+        return ["exp", False, getattr(v["expectation"], "value", v["expectation"]), v.get("column", ""),
+                json.dumps(v.get("config", {}), sort_keys=True, default=repr), v.get("ignore_nulls", True)]
+    if type(v) is list:
+        return ["l", [enc(x) for x in v]]
+    if type(v) is dict:
+        try:
+            return ["j", json.dumps(v, sort_keys=True)]
+        except (TypeError, ValueError):
+            pass
+    try:
+        truth = bool(v)
+    except Exception:
+        truth = True
+    return ["o", type(v).__module__ + "." + type(v).__name__, repr(v)[:200], truth]
+
+
+def dec(e):
+    """ev -> Python value (inputs only)."""
+    import datetime
+    import decimal
+    import json
+
+    import orso.schema as S
+    import orso.types as T
+
+    k = e[0]
+    if k == "n":
+        return None
+    if k in ("b", "i", "s"):
+        return e[1]
+    if k == "f":
+        return float.fromhex(e[1])
+    if k == "y":
+        return bytes(e[1])
+    if k == "d":
+        return decimal.Decimal(e[1]).scaleb(e[2], context=decimal.Context(prec=200))
+    if k == "D":
+        return datetime.date(e[1], e[2], e[3])
+    if k == "T":
+        return datetime.datetime(*e[1:8], tzinfo=datetime.timezone.utc if e[8] else None)
+    if k == "t":
+        return datetime.timedelta(days=e[1], seconds=e[2], microseconds=e[3])
+    if k == "ty":
+        return T.OrsoTypes[e[1]]
+    if k == "disp":
+        return S.ColumnDisposition[e[1]]
+    if k == "exp":
+        from data_expectations import Behaviors, Expectation
+
+        if e[1]:
+            return Expectation(Behaviors(e[2]), column=e[3], config=json.loads(e[4]), ignore_nulls=e[5])
+        d = {"expectation": e[2], "config": json.loads(e[4]), "ignore_nulls": e[5]}
+        if e[3] is not None:
+            d["column"] = e[3]
+        return d
+    if k == "l":
+        return [dec(x) for x in e[1]]
+    if k == "j":
+        return json.loads(e[1])
+    raise ValueError("C16: cannot rebuild a value from %r" % (e,))
+
+
+def enc_json(j):
+    """orjson.loads output -> jv"""
+    if j is None:
+        return ["n"]
+    if type(j) is bool:
+        return ["b", j]
+    if type(j) is int:
+        return ["i", j]
+    if type(j) is float:
+        return ["f", j.hex()]
+    if type(j) is str:
+        return ["s", j]
+    if type(j) is list:
+        return ["a", [enc_json(x) for x in j]]
+    if type(j) is dict:
+        if "expectation" in j:
+            return ["e", enc(j)]
+        return ["o", [[k, enc_json(v)] for k, v in j.items()]]
+    return ["?", repr(j)]
+
+
+def _exn(e):
+    from orso.exceptions import ColumnDefinitionError
+
+    for cls, name in ((ColumnDefinitionError, "ColumnDefinitionError"), (KeyError, "KeyError"), (AttributeError, "AttributeError"),
+                      (TypeError, "TypeError"), (ValueError, "ValueError")):
+        if isinstance(e, cls):
+            return name
+    return "Other:" + type(e).__name__
+
+
+def _try(f):
+    try:
+        return ["ok", f()]
+    except Exception as e:  # the call raised
+        return ["raise", _exn(e)]
+
+
+def _attrs(c):
+    import orso.schema as S
+
+    return [[f.name, enc(getattr(c, f.name))] for f in dataclasses.fields(S.FlatColumn)]
+
+
+def _native(e):
+    return e[0] in ("n", "b", "i", "f", "s", "ty", "disp", "exp")
+
+
+def _leaves(e):
+    if e[0] == "l":
+        for x in e[1]:
+            yield from _leaves(x)
+    else:
+        yield e
+
+
+def _validate_outcome(schema, rec):
+    from orso.exceptions import DataValidationError, ExcessColumnsInDataError
+
+    try:
+        return ["ok", bool(schema.validate(rec))]
+    except ExcessColumnsInDataError as e:
+        return ["excess", sorted(map(str, e.columns))]
+    except DataValidationError as e:
+        out = []
+        for k in sorted(e.errors):
+            out.append([k, [x if isinstance(x, str) else [x[0], enc(x[1]), getattr(x[2], "name", repr(x[2]))] for x in e.errors[k]]])
+        return ["invalid", out]
+    except Exception as e:
+        return ["raise", _exn(e)]
+
+
+def _description(schema):
+    from orso.dataframe import DataFrame
+
+    try:
+        d = DataFrame(rows=[], schema=schema).description
+    except Exception as e:
+        return ["raise", _exn(e)]
+    return ["ok", [[enc(x[0]), x[1], enc(x[4]), enc(x[5]), enc(x[6]), [enc(x[2]), enc(x[3])]] for x in d]]
+
+
+def _description_each(schema):
+    """description computed column by column (so that one failing column does not hide the others)"""
+    import orso.schema as S
+
+    out = []
+    for c in schema.columns:
+        r = _description(S.RelationSchema(name="d", columns=[c]))
+        out.append(["ok", r[1][0]] if r[0] == "ok" else r)
+    return out
+
+
+def _parse_pairs(T, types, values):
+    out = []
+    seen = set()
+    for t in types:
+        for v in values:
+            key = (t.name, repr(enc(v)))
+            if key in seen:
+                continue
+            seen.add(key)
+            out.append([t.name, enc(v), _try(lambda: enc(t.parse(v)))])
+    return out
+
+
+def _resolved_types(T, kwtype, built):
+    ts = []
+    if built is not None and isinstance(built.type, T.OrsoTypes):
+        ts.append(built.type)
+    try:
+        t = kwtype if isinstance(kwtype, T.OrsoTypes) else T.OrsoTypes.from_name(kwtype)[0]
+        if isinstance(t, T.OrsoTypes) and t not in ts:
+            ts.append(t)
+    except Exception:
+        pass
+    return ts
+
+
+def _ser_probe(S, orjson, v):
+    def f():
+        return enc_json(orjson.loads(S.FlatColumn(name="p", lowest_value=v).to_json())["lowest_value"])
+
+    return _try(f)
+
+
+EXTRAS = {
+    "FlatColumn": {},
+    "FunctionColumn": {"binding": len, "configuration": ("abc",)},
+    "ConstantColumn": {"value": 3},
+    "SparseColumn": {"values": [1, 0, 3, 0], "default_value": 0},
+    "RLEColumn": {"values": [1, 1, 2]},
+    "DictionaryColumn": {"values": ["a", "b", "a"]},
+}
+
+
+def observe(case):
+    import warnings
+
+    import orjson
+    import orso.schema as S
+    import orso.types as T
+
+    with warnings.catch_warnings():
+        warnings.simplefilter("ignore")
+        if case["kind"] == "flat":
+            return _observe_flat(case, S, T)
+        return _observe_schema(case, S, T, orjson)
+
+
+def _kwargs(pairs):
+    kw = {}
+    for k, v in pairs:
+        if k in kw:
+            raise ValueError("C16: repeated keyword argument %s in a case" % k)
+        kw[k] = dec(v)
+    return kw
+
+
+def _observe_flat(case, S, T):
+    kw = _kwargs(case["kw"])
+    cls = getattr(S, case["cls"])
+    obs = {"parse": [], "fresh": None}
+    try:
+        c = cls(**kw, **EXTRAS[case["cls"]])
+    except Exception as e:
+        obs["built"] = ["raise", _exn(e)]
+        obs["parse"] = _parse_pairs(T, _resolved_types(T, kw.get("type"), None), [kw["default"]] if "default" in kw else [])
+        return obs
+    obs["built"] = ["ok", _attrs(c)]
+    obs["fresh"] = c.identity if "identity" not in kw else None
+    obs["parse"] = _parse_pairs(T, _resolved_types(T, kw.get("type"), c), ([kw["default"]] if "default" in kw else []) + [c.default])
+
+    def flat():
+        f = c.to_flatcolumn()
+        return {"cls": type(f).__name__, "attrs": _attrs(f)}
+
+    obs["flat"] = _try(flat)
+    return obs
+
+
+def _observe_schema(case, S, T, orjson):
+    obs = {"cols": [], "parse": [], "ser": []}
+    cols = []
+    serseen = set()
+    for spec in case["cols"]:
+        kw = _kwargs(spec["kw"])
+        o = {"fresh": None}
+        try:
+            c = S.FlatColumn(**kw)
+        except Exception as e:
+            o["built"] = ["raise", _exn(e)]
+            obs["parse"] += _parse_pairs(T, _resolved_types(T, kw.get("type"), None), [kw["default"]] if "default" in kw else [])
+            obs["cols"].append(o)
+            cols.append(None)
+            continue
+        cols.append(c)
+        o["built"] = ["ok", _attrs(c)]
+        o["fresh"] = c.identity if "identity" not in kw else None
+        # to_json / from_json
+        o["json"] = _try(lambda: enc_json(orjson.loads(c.to_json())))
+        back = None
+
+        def backf():
+            nonlocal back
+            back = S.FlatColumn.from_json(c.to_json())
+            return {"cls": type(back).__name__, "attrs": _attrs(back), "eq": bool(back == c)}
+
+        o["back"] = _try(backf)
+
+        def flat():
+            f = c.to_flatcolumn()
+            return {"cls": type(f).__name__, "attrs": _attrs(f)}
+
+        o["flat"] = _try(flat)
+        # the library functions the model takes as parameters, observed on the values it will ask about
+        vals = ([kw["default"]] if "default" in kw else []) + [c.default]
+        try:
+            vals.append(orjson.loads(c.to_json())["default"])
+        except Exception:
+            pass
+        obs["parse"] += _parse_pairs(T, _resolved_types(T, kw.get("type"), c), vals)
+        for f in dataclasses.fields(S.FlatColumn):
+            v = getattr(c, f.name)
+            for leaf in (v if type(v) is list else [v]):
+                e = enc(leaf)
+                if not _native(e) and e[0] != "l" and repr(e) not in serseen:
+                    serseen.add(repr(e))
+                    obs["ser"].append([e, _ser_probe(S, orjson, leaf)])
+        obs["cols"].append(o)
+    if any(c is None for c in cols):
+        return obs
+    sk = dict(name=dec(case["name"]), aliases=dec(case["aliases"]), columns=cols, primary_key=dec(case["pk"]))
+    for n, v in zip(("row_count_metric", "row_count_estimate", "data_size_metric", "data_size_estimate"), case["stats"]):
+        sk[n] = dec(v)
+    s = S.RelationSchema(**sk)
+    restored = None
+
+    def todict():
+        d = s.to_dict()
+        out = {"keys": list(d.keys()), "top": [[k, enc(v)] for k, v in d.items() if k != "columns"], "columns": []}
+        for cd in d["columns"]:
+            out["columns"].append([[k, enc(v)] for k, v in cd.items()])
+        return out
+
+    obs["dict"] = _try(todict)
+
+    def rest():
+        nonlocal restored
+        restored = S.RelationSchema.from_dict(s.to_dict())
+        return {"top": [[f.name, enc(getattr(restored, f.name))] for f in dataclasses.fields(S.RelationSchema) if f.name != "columns"],
+                "cols": [{"cls": type(c).__name__, "attrs": _attrs(c)} for c in restored.columns],
+                "eq": bool(restored == s)}
+
+    obs["restored"] = _try(rest)
+    obs["top"] = [[f.name, enc(getattr(s, f.name))] for f in dataclasses.fields(S.RelationSchema) if f.name != "columns"]
+    obs["desc"] = _description_each(s)
+    obs["desc_all"] = _description(s)
+    if restored is not None:
+        obs["desc2"] = _description_each(restored)
+        obs["desc2_all"] = _description(restored)
+        obs["validate"] = []
+        for rec in case.get("records", []):
+            r = {k: dec(v) for k, v in rec}
+            obs["validate"].append([_validate_outcome(s, dict(r)), _validate_outcome(restored, dict(r))])
+    return obs
+
+
+# ----------------------------------------------------------------------------------------------
+# guarded input classes (each is a predicate on the INPUT, i.e. on the built columns / the case)
+MISSING = ["ty", "_MISSING_TYPE"]
+FOCI = {
+    "type_of_untyped": "F-C16-4b",
+    "schema_statistics": "F-C16-6",
+    "expectations": "F-C16-7",
+    "array_element_type": "F-C16-8",
+    "interval_default": "F-C16-9",
+    "json_leaf": "F-C16-10",
+}
+INT64_LO, UINT64_HI = -(2 ** 63), 2 ** 64
+
+
+def _truthy_ev(e):
+    k = e[0]
+    if k == "n":
+        return False
+    if k in ("b", "i"):
+        return bool(e[1])
+    if k == "f":
+        return float.fromhex(e[1]) != 0
+    if k in ("s", "y", "l"):
+        return len(e[1]) > 0
+    if k == "d":
+        return e[1] != 0
+    if k == "t":
+        return any(e[1:4])
+    if k == "o":
+        return bool(e[3])
+    return True
+
+
+def _a(attrs, name):
+    for k, v in attrs:
+        if k == name:
+            return v
+    return None
+
+
+def _is_untyped(attrs):
+    return _a(attrs, "type") == MISSING
+
+
+def _has_object_expectation(attrs):
+    e = _a(attrs, "expectations")
+    return e is not None and e[0] == "l" and any(x[0] == "exp" and x[1] for x in e[1])
+
+
+def _array_without_element(attrs):
+    return _a(attrs, "type") == ["ty", "ARRAY"] and _a(attrs, "element_type") in (["n"], MISSING)
+
+
+def _interval_default(attrs):
+    return _a(attrs, "type") == ["ty", "INTERVAL"] and _truthy_ev(_a(attrs, "default"))
+
+
+def _unfaithful_leaf(e, as_default):
+    import math
+
+    k = e[0]
+    if k == "y":
+        if not e[1]:
+            return as_default          # b'' comes back as ''
+        try:
+            bytes(e[1]).decode("utf-8")
+        except UnicodeDecodeError:
+            return True
+        return not as_default          # statistics are not re-parsed: text comes back
+    if k == "i":
+        return not (INT64_LO <= e[1] < UINT64_HI)
+    if k == "f":
+        return not math.isfinite(float.fromhex(e[1]))
+    if k == "T":
+        return bool(e[8]) or not as_default
+    if k in ("d", "D", "t", "j", "o"):
+        return not as_default
+    return False
+
+
+def _json_unfaithful(attrs):
+    """default / statistics values the JSON form cannot carry back (explicit value classes, see notes/C16.md F-C16-10)"""
+    d = _a(attrs, "default")
+    if any(_unfaithful_leaf(x, True) for x in _leaves(d)):
+        return True
+    for n in ("highest_value", "lowest_value"):
+        if any(_unfaithful_leaf(x, False) for x in _leaves(_a(attrs, n))):
+            return True
+    return False
+
+
+def _built(obs):
+    if "cols" in obs:
+        rs = [o.get("built") for o in obs["cols"]]
+    else:
+        rs = [obs.get("built")]
+    if any(r is None or r[0] != "ok" for r in rs):
+        return None
+    return [r[1] for r in rs]
+
+
+def _stats_set(case):
+    return any(v != ["n"] for v in case.get("stats", []))
+
+
+def known(case, obs):
+    """A case is skipped only when its question is exactly one that a finding answers: the focus names the guarded
+    attribute and the input is in the guarded class.  (An INTERVAL column with a default cannot be restored, serialised
+    or flattened at all, so that input class is guarded whatever the focus.)"""
+    cols = _built(obs)
+    if cols is None:
+        return None
+    if any(_interval_default(a) for a in cols):
+        return FOCI["interval_default"]
+    f = case.get("focus")
+    if f == "type_of_untyped" and any(_is_untyped(a) for a in cols):
+        return FOCI[f]
+    if f == "schema_statistics" and _stats_set(case):
+        return FOCI[f]
+    if f == "expectations" and any(_has_object_expectation(a) for a in cols):
+        return FOCI[f]
+    if f == "array_element_type" and any(_array_without_element(a) for a in cols):
+        return FOCI[f]
+    if f == "json_leaf" and any(_json_unfaithful(a) for a in cols):
+        return FOCI[f]
+    return None
+
+
+# ----------------------------------------------------------------------------------------------
+# the property, read literally
+KEPT_BY_FLATTEN = ["identity", "name", "type", "precision", "scale", "element_type", "nullable", "default", "aliases",
+                   "description", "highest_value", "lowest_value", "null_count"]
+SCHEMA_STATS = ["row_count_metric", "row_count_estimate", "data_size_metric", "data_size_estimate"]
+
+
+def _diff(orig, got, skip, only=None):
+    bad = []
+    names = [k for k, _ in orig]
+    if [k for k, _ in got] != names:
+        return ["declared attributes differ: %s vs %s" % (names, [k for k, _ in got])]
+    for (k, a), (_, b) in zip(orig, got):
+        if k in skip or (only is not None and k not in only):
+            continue
+        if a != b:
+            bad.append("%s: %s became %s" % (k, a, b))
+    return bad
+
+
+def _col_skips(attrs):
+    skip = set()
+    if _is_untyped(attrs):
+        skip.add("type")                # F-C16-4b
+    if _has_object_expectation(attrs):
+        skip.add("expectations")        # F-C16-7
+    if _array_without_element(attrs):
+        skip.add("element_type")        # F-C16-8
+    return skip
+
+
+def oracle(case, obs):
+    if case["kind"] == "flat":
+        return _oracle_flat(case, obs)
+    cols = _built(obs)
+    if cols is None:
+        return None                      # not a schema: some column definition was rejected
+    focus = case.get("focus")
+    only = None
+    if focus == "type_of_untyped":
+        only = {"type"}
+    elif focus == "expectations":
+        only = {"expectations"}
+    elif focus == "array_element_type":
+        only = {"element_type"}
+    guarded = focus is None or focus == "interval_default"
+    any_guard = _stats_set(case) or any(_col_skips(a) for a in cols)
+    # ---- to_dict / from_dict
+    if focus != "json_leaf":
+        if obs["dict"][0] != "ok":
+            return "to_dict raised %s" % obs["dict"][1]
+        r = obs["restored"]
+        if r[0] != "ok":
+            return "from_dict(to_dict(schema)) raised %s" % r[1]
+        r = r[1]
+        if focus in (None, "interval_default", "schema_statistics"):
+            skip = set(SCHEMA_STATS) if (guarded and _stats_set(case)) else set()
+            bad = _diff(obs["top"], r["top"], skip, set(SCHEMA_STATS) if focus == "schema_statistics" else None)
+            if bad:
+                return "the restored schema must equal the original in its own attributes: " + "; ".join(bad)
+        if focus != "schema_statistics":
+            if len(r["cols"]) != len(cols):
+                return "the restored schema has %d columns, the original %d" % (len(r["cols"]), len(cols))
+            for i, (a, rc) in enumerate(zip(cols, r["cols"])):
+                if rc["cls"] != "FlatColumn":
+                    return "column %d restored as %s" % (i, rc["cls"])
+                bad = _diff(a, rc["attrs"], _col_skips(a) if guarded else set(), only)
+                if bad:
+                    return "from_dict(to_dict(schema)): column %d must equal the original in every declared attribute: %s" % (i, "; ".join(bad))
+            if guarded and not any_guard and not r["eq"]:
+                return "from_dict(to_dict(schema)) == schema is False"
+    if focus == "schema_statistics":
+        return None
+    # ---- to_json / from_json
+    for i, (a, o) in enumerate(zip(cols, obs["cols"])):
+        unf = _json_unfaithful(a)
+        if (unf and focus != "json_leaf") or (focus == "json_leaf" and not unf):
+            continue                     # F-C16-10: compared only by the json_leaf cases
+        if o["json"][0] != "ok" or o["back"][0] != "ok":
+            return "column %d: to_json / from_json raised %s" % (i, (o["json"] if o["json"][0] != "ok" else o["back"])[1])
+        b = o["back"][1]
+        if b["cls"] != "FlatColumn":
+            return "column %d: from_json gave a %s" % (i, b["cls"])
+        bad = _diff(a, b["attrs"], _col_skips(a) if (guarded or focus == "json_leaf") else set(), only)
+        if bad:
+            return "from_json(to_json(column %d)) must equal the column in every declared attribute: %s" % (i, "; ".join(bad))
+        if guarded and not _col_skips(a) and not b["eq"]:
+            return "from_json(to_json(column %d)) == column is False" % i
+    if focus not in (None, "interval_default", "array_element_type"):
+        return None
+    # ---- behaviour of the restored schema
+    for i, a in enumerate(cols):
+        d1, d2 = obs["desc"][i], obs.get("desc2", [None] * len(cols))[i]
+        if d1[0] != "ok" or d2 is None or d2[0] != "ok":
+            return "DataFrame.description raised on column %d: original %s, restored %s" % (i, d1, d2)
+        if d1 != d2 and not (guarded and _array_without_element(a)):
+            return "the restored schema must report the same description for column %d: %s vs %s" % (i, d1[1], d2[1])
+    if focus == "array_element_type":
+        return None
+    if not any(_array_without_element(a) for a in cols) and obs["desc_all"] != obs.get("desc2_all"):
+        return "the restored schema must report the same column descriptions: %s vs %s" % (obs["desc_all"], obs.get("desc2_all"))
+    for rec, (v1, v2) in zip(case.get("records", []), obs.get("validate", [])):
+        if v1 != v2:
+            return "the restored schema must accept and reject the same records: on %s the original gives %s, the restored %s" % (rec, v1, v2)
+    # ---- to_flatcolumn
+    for i, (a, o) in enumerate(zip(cols, obs["cols"])):
+        why = _flat_why(a, o["flat"])
+        if why:
+            return "column %d: %s" % (i, why)
+    return None
+
+
+def _flat_why(a, fl):
+    if fl[0] != "ok":
+        return "to_flatcolumn raised %s" % fl[1]
+    if fl[1]["cls"] != "FlatColumn":
+        return "to_flatcolumn gave a %s" % fl[1]["cls"]
+    bad = _diff(a, fl[1]["attrs"], set(), set(KEPT_BY_FLATTEN))
+    if bad:
+        return "to_flatcolumn must keep identity, name, type, precision, scale, element type, nullability, default, aliases, description and statistics: " + "; ".join(bad)
+    return None
+
+
+def _oracle_flat(case, obs):
+    cols = _built(obs)
+    if cols is None:
+        return None
+    return _flat_why(cols[0], obs["flat"])
+
+
+def known_still_fails(fid, w):
+    """Replays a known witness with the guard lifted: the oracle's verdict on the raw observation."""
+    return oracle(w, observe(w))
+
+
+# ----------------------------------------------------------------------------------------------
+# Coq literals
+FIELD = {"name": "FName", "default": "FDefault", "type": "FType", "element_type": "FElementType", "description": "FDescription",
+         "disposition": "FDisposition", "aliases": "FAliases", "nullable": "FNullable", "expectations": "FExpectations",
+         "identity": "FIdentity", "length": "FLength", "precision": "FPrecision", "scale": "FScale", "origin": "FOrigin",
+         "highest_value": "FHighest", "lowest_value": "FLowest", "null_count": "FNullCount"}
+EXN = {"ValueError", "TypeError", "KeyError", "AttributeError", "ColumnDefinitionError"}
+
+
+class _Intern:
+    def __init__(self):
+        self.t = {}
+
+    def id(self, kind, key):
+        d = self.t.setdefault(kind, {})
+        return d.setdefault(key, len(d))
+
+
+def _bits(hexs):
+    import struct
+
+    return struct.unpack(">Q", struct.pack(">d", float.fromhex(hexs)))[0]
+
+
+def _catom(e, I):
+    k = e[0]
+    if k == "n":
+        return "ANone"
+    if k == "b":
+        return "(ABool %s)" % L.boolean(e[1])
+    if k == "i":
+        return "(AInt %s)" % L.Z(e[1])
+    if k == "f":
+        return "(AFloat %s)" % L.N(_bits(e[1]))
+    if k == "s":
+        return "(AText %s)" % L.text(e[1])
+    if k == "y":
+        return "(ABytes %s)" % L.bytes_(bytes(e[1]))
+    if k == "d":
+        return "(ADec %s %s)" % (L.Z(e[1]), L.Z(e[2]))
+    if k == "D":
+        return "(ADate %s)" % " ".join(L.Z(x) for x in e[1:4])
+    if k == "T":
+        return "(AStamp %s %s)" % (" ".join(L.Z(x) for x in e[1:8]), L.boolean(e[8]))
+    if k == "t":
+        return "(ADelta %s)" % " ".join(L.Z(x) for x in e[1:4])
+    if k == "ty":
+        return "(ATy %s)" % L.text(e[1])
+    if k == "disp":
+        return "(ADisp %s)" % L.text(e[1])
+    if k == "exp":
+        return "(AExp %s %s %s)" % (L.boolean(e[1]), L.boolean(bool(e[3])), L.N(I.id("exp", repr(e[2:]))))
+    if k == "l":
+        return "(AObj 3%%N %s true)" % L.N(I.id("obj", repr(e)))
+    if k == "j":
+        import json
+
+        return "(AObj 5%%N %s %s)" % (L.N(I.id("obj", repr(e))), L.boolean(bool(json.loads(e[1]))))
+    if k == "o":
+        return "(AObj %s %s %s)" % (L.N(10 + I.id("cls", e[1])), L.N(I.id("obj", repr(e[1:3]))), L.boolean(e[3]))
+    raise ValueError(e)
+
+
+def _cpv(e, I):
+    if e[0] == "l":
+        return "(PL %s)" % L.lst(_catom(x, I) for x in e[1])
+    return "(PA %s)" % _catom(e, I)
+
+
+def _cjson(j, I):
+    k = j[0]
+    if k == "n":
+        return "JNull"
+    if k == "b":
+        return "(JBool %s)" % L.boolean(j[1])
+    if k == "i":
+        return "(JInt %s)" % L.Z(j[1])
+    if k == "f":
+        return "(JFloat %s)" % L.N(_bits(j[1]))
+    if k == "s":
+        return "(JText %s)" % L.text(j[1])
+    if k == "a":
+        return "(JArr %s)" % L.lst(_cjson(x, I) for x in j[1])
+    if k == "o":
+        return "(JObj %s)" % L.lst("(%s, %s)" % (L.text(a), _cjson(b, I)) for a, b in j[1])
+    if k == "e":
+        e = j[1]
+        return "(JExpn %s %s)" % (L.boolean(bool(e[3])), L.N(I.id("exp", repr(e[2:]))))
+    return "(JText %s)" % L.text("?unencodable?")
+
+
+def _cres(r, f):
+    if r[0] == "ok":
+        return "(Ok %s)" % f(r[1])
+    return "(Raise %s)" % (r[1] if r[1] in EXN else "OtherExn")
+
+
+def _ccolumn(attrs, I):
+    d = dict((k, v) for k, v in attrs)
+    return "(mkcolumn %s)" % " ".join(_cpv(d[n], I) for n in FIELD)
+
+
+def _ckw(kw, I):
+    return "(%s : kwargs)" % L.lst("(%s, %s)" % (FIELD[k], _cpv(v, I)) for k, v in kw if k in FIELD)
+
+
+def _crobs(built, r, I, attrs_of=lambda x: x["attrs"]):
+    if r[0] != "ok":
+        return "(RFull %s)" % _cres(r, lambda x: "")
+    patch = [[k, v] for (k, v), (_, b) in zip(attrs_of(r[1]), built) if v != b]
+    return "(RSame %s)" % _ckw(patch, I)
+
+
+def _cdesc(r, I):
+    return _cres(r, lambda d: "(%s, %s, %s, %s, %s)" % (_cpv(d[0], I), L.text(d[1]) if d[1] is not None else L.text("?None?"),
+                                                       _cpv(d[2], I), _cpv(d[3], I), _cpv(d[4], I)))
+
+
+def _cparse(tbl, I):
+    return "(%s : parse_table)" % L.lst("(%s, %s, %s)" % (L.text(m), _cpv(v, I), _cres(r, lambda x: _cpv(x, I))) for m, v, r in tbl)
+
+
+def _fields_ok(attrs):
+    return [k for k, _ in attrs] == list(FIELD)
+
+
+DUMMY = ["raise", "Other:not-observed"]
+
+
+def to_coq(case, obs):
+    I = _Intern()
+    if case["kind"] == "flat":
+        b = obs["built"]
+        if b[0] == "ok" and not _fields_ok(b[1]):
+            return None
+        fl = obs.get("flat", DUMMY)
+        term = "(%s, %s, %s, %s, %s, %s)" % (
+            _cparse(obs["parse"], I), L.text(case["cls"]), _ckw(case["kw"], I), L.text(obs.get("fresh") or ""),
+            _cres(b, lambda a: _ccolumn(a, I)),
+            _crobs(b[1], fl, I) if b[0] == "ok" else "(RFull (Raise OtherExn))")
+        return ("flat", term)
+    cols = []
+    for spec, o in zip(case["cols"], obs["cols"]):
+        b = o["built"]
+        if b[0] == "ok":
+            if not _fields_ok(b[1]):
+                return None
+            t = "(mkobs %s %s %s %s %s %s %s)" % (
+                L.text(o.get("fresh") or ""), _cres(b, lambda a: _ccolumn(a, I)), _cres(o["json"], lambda j: _cjson(j, I)),
+                _crobs(b[1], o["back"], I), _crobs(b[1], o["flat"], I),
+                _cdesc(obs["desc"][len(cols)] if "desc" in obs else DUMMY, I),
+                _cdesc(obs["desc2"][len(cols)] if "desc2" in obs else DUMMY, I))
+        else:
+            t = "(mkobs [] %s (Raise OtherExn) (RFull (Raise OtherExn)) (RFull (Raise OtherExn)) (Raise OtherExn) (Raise OtherExn))" % _cres(b, lambda a: "")
+        cols.append("(%s, %s)" % (_ckw(spec["kw"], I), t))
+    built = _built(obs)
+    od = orest = "(Raise OtherExn)"
+    if built is not None:
+        d = obs["dict"]
+        if d[0] == "ok":
+            top = dict((k, v) for k, v in d[1]["top"])
+            rest = [v for k, v in d[1]["top"] if k not in ("name", "aliases", "primary_key")]
+            patches = []
+            ok = len(d[1]["columns"]) == len(built)
+            for cd, a in zip(d[1]["columns"], built):
+                if [k for k, _ in cd] != list(FIELD):
+                    ok = False
+                    break
+                patches.append(_ckw([[k, v] for (k, v), (_, b) in zip(cd, a) if v != b], I))
+            if ok:
+                def o_(k):
+                    return L.opt(_cpv(top[k], I) if k in top else None)
+
+                od = "(Ok (%s, %s, %s, %s, %s))" % (o_("name"), o_("aliases"), L.lst(patches), o_("primary_key"), L.lst(_cpv(v, I) for v in rest))
+            else:
+                od = "(Raise Unmodelled)"
+        else:
+            od = _cres(d, lambda x: "")
+        r = obs["restored"]
+        if r[0] == "ok":
+            top = dict((k, v) for k, v in r[1]["top"])
+            if len(r[1]["cols"]) == len(built) and all(n in top for n in ["name", "aliases", "primary_key"] + SCHEMA_STATS):
+                orest = "(Ok (%s, %s, %s, %s, (%s)))" % (
+                    _cpv(top["name"], I), _cpv(top["aliases"], I),
+                    L.lst(_crobs(a, ["ok", rc], I) for a, rc in zip(built, r[1]["cols"])),
+                    _cpv(top["primary_key"], I), ", ".join(_cpv(top[n], I) for n in SCHEMA_STATS))
+            else:
+                orest = "(Raise Unmodelled)"
+        else:
+            orest = _cres(r, lambda x: "")
+    sert = "(%s : ser_table)" % L.lst("(%s, %s)" % (_catom(a, I), _cres(r, lambda j: _cjson(j, I))) for a, r in obs["ser"])
+    top = "(%s)" % ", ".join(_cpv(v, I) for v in [case["name"], case["aliases"], case["pk"]] + case["stats"])
+    term = "(%s, %s, %s, %s, %s, %s)" % (_cparse(obs["parse"], I), sert, top, L.lst(cols), od, orest)
+    return ("schema", term)
+
+
+# ----------------------------------------------------------------------------------------------
+# generators
+MEMBERS = ["ARRAY", "BLOB", "BOOLEAN", "DATE", "DECIMAL", "DOUBLE", "INTEGER", "INTERVAL", "STRUCT", "TIMESTAMP", "TIME", "VARCHAR", "NULL", "JSONB"]
+SCALARS = [m for m in MEMBERS if m not in ("ARRAY", "DECIMAL")]
+
+
+def S_(x):
+    return ["s", x]
+
+
+def I_(x):
+    return ["i", x]
+
+
+def F_(x):
+    return ["f", float(x).hex()]
+
+
+DEFAULTS = {
+    "INTEGER": [I_(5), I_(0), I_(-3), I_(2 ** 63 - 1), I_(-2 ** 63), I_(2 ** 64 - 1), S_("7"), ["b", True]],
+    "DOUBLE": [F_(1.5), F_(0.0), F_(-2.25), F_(1e300), I_(1)],
+    "BOOLEAN": [["b", True], ["b", False], S_("no"), S_("yes")],
+    "VARCHAR": [S_("abc"), S_(""), S_("héllo ✓"), ["y", [97, 98]], I_(5)],
+    "BLOB": [["y", [97, 98, 99]], S_("abc"), ["y", [195, 169]]],
+    "DECIMAL": [["d", 15, -1], ["d", 0, 0], S_("2.50"), I_(3), ["d", -123456, -3]],
+    "DATE": [["D", 2020, 1, 2], S_("2020-01-02"), ["D", 1999, 12, 31]],
+    "TIMESTAMP": [["T", 2020, 1, 2, 3, 4, 5, 0, False], S_("2020-01-02T03:04:05"), ["T", 2020, 1, 2, 3, 4, 5, 678, False]],
+    "ARRAY": [["l", [I_(1), I_(2)]], ["l", []], ["l", [S_("a")]], S_("[1, 2]")],
+    "STRUCT": [["y", list(b'{"a":1}')], ["j", '{"a": 1}'], S_('{"a":1}')],
+    "JSONB": [["y", list(b'{"a":1}')], ["j", '{"a": 1}']],
+    "NULL": [I_(1)],
+    "TIME": [S_("03:04:05")],
+    "INTERVAL": [],
+    None: [["n"], I_(0), S_(""), I_(5)],
+}
+UNFAITHFUL_DEFAULTS = [("BLOB", ["y", []]), ("BLOB", ["y", [255, 254]]), ("INTEGER", I_(2 ** 70)), ("DOUBLE", F_(float("inf"))),
+                       ("TIMESTAMP", ["T", 2020, 1, 2, 3, 4, 5, 0, True]), ("JSONB", ["y", [128]])]
+UNFAITHFUL_STATS = [["d", 15, -1], ["D", 2020, 1, 1], ["y", [97]], F_(float("inf")), ["T", 2020, 1, 2, 3, 4, 5, 0, False]]
+STATS = [I_(1), I_(-7), F_(2.5), S_("aa"), S_(""), I_(0), ["n"], I_(2 ** 40)]
+RECORD_VALUES = {
+    "INTEGER": I_(1), "DOUBLE": F_(1.5), "BOOLEAN": ["b", True], "VARCHAR": S_("x"), "BLOB": ["y", [120]], "DECIMAL": ["d", 15, -1],
+    "DATE": ["D", 2020, 1, 2], "TIMESTAMP": ["T", 2020, 1, 2, 3, 4, 5, 0, False], "ARRAY": ["l", [I_(1)]], "STRUCT": ["j", '{"a": 1}'],
+    "JSONB": ["y", [123, 125]], "INTERVAL": ["t", 1, 0, 0], "NULL": I_(1), "TIME": S_("x"), None: S_("anything"),
+}
+
+
+def _case_variant(rng, s):
+    r = rng.random()
+    if r < 0.6:
+        return s
+    if r < 0.8:
+        return s.lower()
+    return "".join(c.lower() if rng.random() < 0.5 else c for c in s)
+
+
+def type_forms():
+    """(label, type ev or None for 'no type given', base member or None)"""
+    out = [("untyped", None, None), ("untyped-None", ["n"], None), ("zero", S_("0"), None), ("zero-variant", S_("VARIANT"), None)]
+    for m in MEMBERS:
+        out.append(("base:" + m, S_(m), m))
+    for m in ("INTEGER", "VARCHAR", "DECIMAL", "DATE", "JSONB"):
+        out.append(("member:" + m, ["ty", m], m))
+    out += [("decimal(p,s)", S_("DECIMAL(10,2)"), "DECIMAL"), ("decimal(p,s)", S_("decimal(38,38)"), "DECIMAL"), ("decimal(p,s)", S_("DECIMAL(5, 0)"), "DECIMAL"),
+            ("decimal(p,s)", S_("DECIMAL(0,0)"), "DECIMAL"),
+            ("varchar[n]", S_("VARCHAR[10]"), "VARCHAR"), ("varchar[n]", S_("varchar[0]"), "VARCHAR"), ("blob[n]", S_("BLOB[3]"), "BLOB"),
+            ("blob[n]", S_("BLOB[65536]"), "BLOB")]
+    for t in SCALARS:
+        out.append(("array<T>", S_("ARRAY<%s>" % t), "ARRAY"))
+    return out
+
+
+def _rand_type(rng):
+    r = rng.random()
+    if r < 0.12:
+        return rng.choice([("untyped", None, None), ("untyped-None", ["n"], None), ("untyped-member", MISSING, None)])
+    if r < 0.16:
+        return rng.choice([("zero", S_("0"), None), ("zero-variant", S_(_case_variant(rng, "VARIANT")), None), ("zero-int", I_(0), None)])
+    if r < 0.45:
+        m = rng.choice(MEMBERS)
+        return ("base:" + m, S_(_case_variant(rng, m)), m)
+    if r < 0.55:
+        m = rng.choice([x for x in MEMBERS if x != "ARRAY"])
+        return ("member:" + m, ["ty", m], m)
+    if r < 0.68:
+        p = rng.choice([0, 1, 5, 10, 28, 38])
+        s = rng.choice([x for x in (0, 1, 2, 5, 10, 21, 38) if x <= p])
+        return ("decimal(p,s)", S_(_case_variant(rng, "DECIMAL(%d,%s%d)" % (p, rng.choice(["", " "]), s))), "DECIMAL")
+    if r < 0.78:
+        return ("varchar[n]", S_(_case_variant(rng, "VARCHAR[%d]" % rng.choice([0, 1, 10, 255, 2 ** 31]))), "VARCHAR")
+    if r < 0.86:
+        return ("blob[n]", S_(_case_variant(rng, "BLOB[%d]" % rng.choice([0, 3, 16, 2 ** 20]))), "BLOB")
+    if r < 0.97:
+        return ("array<T>", S_(_case_variant(rng, "ARRAY<%s>" % rng.choice(SCALARS))), "ARRAY")
+    if r < 0.985:
+        return rng.choice([("array-no-element", ["ty", "ARRAY"], "ARRAY"), ("array-no-element", S_("LIST"), "ARRAY")])
+    return ("invalid", S_(rng.choice(["STRING", "DECIMAL(3,5)", "ARRAY<ARRAY<INTEGER>>", "ARRAY<INT>", "FLOAT", "DECIMAL(39,1)"])), None)
+
+
+def _names(rng, k):
+    pool = ["id", "name", "Value", "c0", "c1", "x_y", "été", "a b", "col", "n"]
+    rng.shuffle(pool)
+    return pool[:k]
+
+
+def _ident(rng):
+    return "%016x" % rng.getrandbits(64)
+
+
+def _column(rng, name, toggles=None, form=None):
+    """toggles: set of optional attributes to give (None = random)"""
+    label, tev, base = form if form is not None else _rand_type(rng)
+    on = (lambda t: rng.random() < 0.3) if toggles is None else (lambda t: t in toggles)
+    kw = [["name", S_(name)]]
+    if tev is not None:
+        kw.append(["type", tev])
+    if on("default"):
+        pool = DEFAULTS.get(base, [])
+        if pool:
+            kw.append(["default", rng.choice(pool if toggles is None else pool[:3])])
+    if on("aliases"):
+        kw.append(["aliases", rng.choice([["l", [S_(name + "_a")]], ["l", [S_(name + "_a"), S_(name + "_b")]], ["n"], ["l", []]]) if toggles is None else ["l", [S_(name + "_a")]]])
+    if on("description"):
+        kw.append(["description", rng.choice([S_("a description"), S_(""), S_("désc")]) if toggles is None else S_("a description")])
+    if on("disposition"):
+        kw.append(["disposition", rng.choice([["disp", "NAME"], ["disp", "AGE"], S_("age"), S_("name")])])
+    if on("disposition-by-value"):
+        kw.append(["disposition", S_("age")])
+    if on("nullable"):
+        kw.append(["nullable", ["b", False]])
+    if on("statistics"):
+        kw.append(["lowest_value", rng.choice(STATS)])
+        kw.append(["highest_value", rng.choice(STATS)])
+        kw.append(["null_count", rng.choice([I_(0), I_(3), ["n"]])])
+    if toggles is None or "identity" in toggles or rng.random() < 0.5:
+        if toggles is None and rng.random() < 0.25:
+            pass                           # let the constructor draw one
+        else:
+            kw.append(["identity", S_(_ident(rng))])
+    if on("length"):
+        kw.append(["length", I_(rng.choice([7, 0, 255]))])
+    if on("precision"):
+        kw.append(["precision", I_(rng.choice([5, 10, 0, 38]))])
+    if on("scale"):
+        kw.append(["scale", I_(rng.choice([0, 2, 5]))])
+    if on("element_type"):
+        kw.append(["element_type", rng.choice([["ty", "DATE"], S_("integer"), ["ty", "VARCHAR"]])])
+    if on("origin"):
+        kw.append(["origin", ["l", [S_("t1"), S_("t2")]]])
+    if on("expectations-dict"):
+        kw.append(["expectations", ["l", [["exp", False, "expect_column_to_exist", name, "{}", True]]]])
+    if toggles is None and rng.random() < 0.04:
+        kw.append(["expectations", ["l", [["exp", True, "expect_column_to_exist", name, "{}", True]]]])
+    seen, uniq = set(), []
+    for k, v in kw:                         # keyword arguments cannot repeat
+        if k not in seen:
+            seen.add(k)
+            uniq.append([k, v])
+    kw = uniq
+    if toggles is None:
+        head, tail = kw[:1], kw[1:]
+        rng.shuffle(tail)
+        kw = head + tail
+    return {"kw": kw}, label, base
+
+
+def _records(rng, cols):
+    recs = []
+    for k in range(3):
+        rec = []
+        for spec, base in cols:
+            name = dict((a, b) for a, b in spec["kw"])["name"][1]
+            r = rng.random() if k else 0.5
+            if r < 0.15:
+                continue
+            if r < 0.3:
+                rec.append([name, ["n"]])
+            elif r < 0.8:
+                rec.append([name, RECORD_VALUES.get(base, S_("v"))])
+            else:
+                rec.append([name, RECORD_VALUES[rng.choice([b for b in ("INTEGER", "VARCHAR", "DATE", "ARRAY") if b != base])]])
+        if rng.random() < 0.15:
+            rec.append(["extra_key", I_(1)])
+        recs.append(rec)
+    return recs
+
+
+def _schema_case(rng, specs, focus=None, stats=None, toggles=None):
+    cols = [s for s, _, _ in specs]
+    names = [dict((a, b) for a, b in c["kw"])["name"][1] for c in cols]
+    on = (lambda t: rng.random() < 0.4) if toggles is None else (lambda t: t in toggles)
+    return {"kind": "schema", "name": S_(rng.choice(["rel", "t", "série"]) if toggles is None else "rel"),
+            "aliases": ["l", [S_("r1"), S_("r2")]] if on("schema-aliases") else ["l", []],
+            "pk": S_(rng.choice(names)) if (on("primary-key") and names) else ["n"],
+            "stats": stats or [["n"]] * 4, "cols": cols,
+            "records": _records(rng, [(s, b) for s, _, b in specs]), "focus": focus}
+
+
+def _random_schema(rng):
+    k = rng.choice([1, 1, 2, 2, 3, 4])
+    specs = [_column(rng, n) for n in _names(rng, k)]
+    stats = None
+    if rng.random() < 0.06:
+        stats = [rng.choice([I_(10), ["n"], I_(0)]) for _ in range(4)]
+    return _schema_case(rng, specs, stats=stats)
+
+
+def _random_flat(rng):
+    cls = rng.choice(list(EXTRAS))
+    spec, label, base = _column(rng, rng.choice(["q", "col", "f(x)"]))
+    kw = [x for x in spec["kw"] if x[0] != "expectations"]
+    return {"kind": "flat", "cls": cls, "kw": kw, "focus": None}
+
+
+TOGGLES = [[], ["default"], ["aliases"], ["description"], ["disposition"], ["disposition-by-value"], ["nullable"], ["statistics"],
+           ["length"], ["origin"], ["primary-key"], ["schema-aliases"], ["expectations-dict"],
+           ["default", "aliases", "description", "disposition", "nullable", "statistics", "length", "origin", "primary-key", "schema-aliases"]]
+
+
+def exhaustive(tier):
+    import random
+
+    def it():
+        rng = random.Random(16)
+        for form in type_forms():
+            for tg in TOGGLES:
+                spec = _column(rng, "c0", toggles=set(tg) | {"identity"}, form=form)
+                yield _schema_case(rng, [spec], toggles=set(tg))
+        for cls in EXTRAS:
+            for form in type_forms():
+                spec, _, _ = _column(rng, "q", toggles={"default", "aliases", "description", "nullable", "statistics", "identity", "disposition", "length"}, form=form)
+                yield {"kind": "flat", "cls": cls, "kw": spec["kw"], "focus": None}
+
+    return it(), ("every type-name form (each member name, members given as enum, DECIMAL(p,s), VARCHAR[n], BLOB[n], ARRAY<T> for every scalar T, "
+                  "untyped, 0/VARIANT) x each optional attribute alone and all together as a one-column schema; every column class x every type form for to_flatcolumn")
+
+
+def _focus_cases(rng):
+    """the guarded attributes / input classes, asked on their own"""
+    out = []
+    for tev in (None, ["n"], MISSING, S_("_missing_type")):
+        kw = [["name", S_("u")], ["identity", S_(_ident(rng))]] + ([["type", tev]] if tev is not None else [])
+        out.append(_schema_case(rng, [({"kw": kw}, "untyped", None), _column(rng, "t", form=("base:INTEGER", S_("INTEGER"), "INTEGER"))], focus="type_of_untyped"))
+    out.append(_schema_case(rng, [_column(rng, "a", form=("base:INTEGER", S_("INTEGER"), "INTEGER"))], focus="schema_statistics", stats=[I_(5), I_(6), ["n"], I_(7)]))
+    for isobj in (True,):
+        kw = [["name", S_("e")], ["type", S_("INTEGER")], ["identity", S_(_ident(rng))], ["expectations", ["l", [["exp", isobj, "expect_column_to_exist", "e", "{}", True]]]]]
+        out.append(_schema_case(rng, [({"kw": kw}, "base:INTEGER", "INTEGER")], focus="expectations"))
+    for tev in (["ty", "ARRAY"], S_("LIST")):
+        kw = [["name", S_("l")], ["type", tev], ["identity", S_(_ident(rng))]]
+        out.append(_schema_case(rng, [({"kw": kw}, "array-no-element", "ARRAY")], focus="array_element_type"))
+    kw = [["name", S_("i")], ["type", S_("INTERVAL")], ["default", I_(2)], ["identity", S_(_ident(rng))]]
+    out.append(_schema_case(rng, [({"kw": kw}, "base:INTERVAL", "INTERVAL")], focus="interval_default"))
+    out.append({"kind": "flat", "cls": "FlatColumn", "kw": kw, "focus": "interval_default"})
+    for base, d in UNFAITHFUL_DEFAULTS:
+        kw = [["name", S_("j")], ["type", S_(base)], ["default", d], ["identity", S_(_ident(rng))]]
+        out.append(_schema_case(rng, [({"kw": kw}, "base:" + base, base)], focus="json_leaf"))
+    for v in UNFAITHFUL_STATS:
+        kw = [["name", S_("j")], ["type", S_("VARCHAR")], ["lowest_value", v], ["highest_value", I_(1)], ["identity", S_(_ident(rng))]]
+        out.append(_schema_case(rng, [({"kw": kw}, "base:VARCHAR", "VARCHAR")], focus="json_leaf"))
+        # the same columns in an ordinary case: everything except the JSON form of that column is compared
+        out.append(_schema_case(rng, [({"kw": kw}, "base:VARCHAR", "VARCHAR")]))
+    for base, d in UNFAITHFUL_DEFAULTS:
+        kw = [["name", S_("j")], ["type", S_(base)], ["default", d], ["identity", S_(_ident(rng))]]
+        out.append(_schema_case(rng, [({"kw": kw}, "base:" + base, base)]))
+    return out
+
+
+def generate(rng, tier):
+    for c in _focus_cases(rng):
+        yield c
+    n_schema, n_flat = (450, 150) if tier == "quick" else (9000, 3000)
+    for i in range(n_schema):
+        yield _random_schema(rng)
+    for i in range(n_flat):
+        yield _random_flat(rng)
+
+
+def search(rng):
+    while True:
+        yield _random_schema(rng) if rng.random() < 0.8 else _random_flat(rng)
+
+
+def shrink(case):
+    if case["kind"] == "schema":
+        cols = case["cols"]
+        if len(cols) > 1:
+            for i in range(len(cols)):
+                yield dict(case, cols=cols[:i] + cols[i + 1:], pk=["n"])
+        for i, c in enumerate(cols):
+            for j in range(1, len(c["kw"])):
+                yield dict(case, cols=cols[:i] + [{"kw": c["kw"][:j] + c["kw"][j + 1:]}] + cols[i + 1:])
+        if case["records"]:
+            yield dict(case, records=case["records"][:-1])
+        if case["aliases"] != ["l", []]:
+            yield dict(case, aliases=["l", []])
+    else:
+        kw = case["kw"]
+        for j in range(1, len(kw)):
+            yield dict(case, kw=kw[:j] + kw[j + 1:])
+        if case["cls"] != "FlatColumn":
+            yield dict(case, cls="FlatColumn")
+
+
+# ----------------------------------------------------------------------------------------------
+# witnesses
+def _one(kw, focus=None, pk=None, stats=None, records=None, aliases=None):
+    return {"kind": "schema", "name": S_("rel"), "aliases": aliases or ["l", []], "pk": pk or ["n"], "stats": stats or [["n"]] * 4,
+            "cols": [{"kw": k} for k in kw], "records": records or [], "focus": focus}
+
+
+_ID = [S_("%016x" % (0x1111111111111111 * k)) for k in range(1, 6)]
+KNOWN_WITNESSES = {
+    # an untyped column comes back with type 0 (int), not OrsoTypes._MISSING_TYPE
+    "F-C16-4b": _one([[["name", S_("u")], ["identity", _ID[0]]]], focus="type_of_untyped"),
+    # candidates found while building this check (see notes/C16.md)
+    "F-C16-6": _one([[["name", S_("a")], ["type", S_("INTEGER")], ["identity", _ID[0]]]], focus="schema_statistics", stats=[I_(5), ["n"], ["n"], ["n"]]),
+    "F-C16-7": _one([[["name", S_("e")], ["type", S_("INTEGER")], ["identity", _ID[0]],
+                      ["expectations", ["l", [["exp", True, "expect_column_to_exist", "e", "{}", True]]]]]], focus="expectations"),
+    "F-C16-8": _one([[["name", S_("l")], ["type", ["ty", "ARRAY"]], ["identity", _ID[0]]]], focus="array_element_type"),
+    "F-C16-9": _one([[["name", S_("i")], ["type", S_("INTERVAL")], ["default", I_(2)], ["identity", _ID[0]]]], focus="interval_default"),
+    "F-C16-10": _one([[["name", S_("b")], ["type", S_("BLOB")], ["default", ["y", []]], ["identity", _ID[0]]]], focus="json_leaf"),
+}
+
+
+def corpus():
+    # F-C16-1 (fixed by c05cd84): from_dict dropped the primary key
+    yield _one([[["name", S_("id")], ["type", S_("INTEGER")], ["identity", _ID[0]]], [["name", S_("v")], ["type", S_("VARCHAR")], ["identity", _ID[1]]]],
+               pk=S_("id"), aliases=["l", [S_("r")]])
+    # F-C16-2 (fixed by b5ef26d): disposition came back as the plain string 'age'
+    yield _one([[["name", S_("years")], ["type", S_("INTEGER")], ["disposition", ["disp", "AGE"]], ["identity", _ID[0]]]])
+    yield _one([[["name", S_("who")], ["type", S_("VARCHAR")], ["disposition", S_("name")], ["identity", _ID[0]]]])
+    # F-C16-3a (fixed by 1f60a67): a DECIMAL default made from_dict raise
+    yield _one([[["name", S_("price")], ["type", S_("DECIMAL(10,2)")], ["default", ["d", 15, -1]], ["identity", _ID[0]]]])
+    # F-C16-3b (fixed by da456dc): to_json of a Decimal / bytes default raised
+    yield _one([[["name", S_("price")], ["type", S_("DECIMAL")], ["default", ["d", 25, -1]], ["identity", _ID[0]]],
+                [["name", S_("raw")], ["type", S_("BLOB")], ["default", ["y", [97, 98]]], ["identity", _ID[1]]]])
+    # F-C16-4a (fixed by da66f0e): validate on a restored untyped column raised KeyError: 0
+    yield _one([[["name", S_("u")], ["identity", _ID[0]]], [["name", S_("n")], ["type", S_("INTEGER")], ["identity", _ID[1]]]],
+               records=[[["u", S_("anything")], ["n", I_(1)]], [["u", I_(3)], ["n", S_("x")]], [["u", ["n"]]]])
+    # F-C16-4c (fixed by 1195798): DataFrame.description raised AttributeError for a restored untyped column
+    yield _one([[["name", S_("u")], ["identity", _ID[0]]]])
+    # F-C16-5 (fixed by 97b2663): a restored ARRAY column carried element_type as a plain str; description then raised
+    yield _one([[["name", S_("xs")], ["type", S_("ARRAY<INTEGER>")], ["identity", _ID[0]]]])
+    yield _one([[["name", S_("xs")], ["type", ["ty", "ARRAY"]], ["element_type", S_("date")], ["identity", _ID[0]]]])
+    # a date default and statistics, all optional attributes at once
+    yield _one([[["name", S_("d")], ["type", S_("DATE")], ["default", ["D", 2020, 1, 2]], ["aliases", ["l", [S_("dd")]]], ["description", S_("day")],
+                 ["nullable", ["b", False]], ["lowest_value", I_(1)], ["highest_value", I_(9)], ["null_count", I_(0)], ["identity", _ID[0]]]], pk=S_("d"))
+    for cls in EXTRAS:
+        yield {"kind": "flat", "cls": cls, "focus": None,
+               "kw": [["name", S_("q")], ["type", S_("VARCHAR[5]")], ["default", S_("x")], ["aliases", ["l", [S_("al")]]], ["description", S_("dd")],
+                      ["nullable", ["b", False]], ["lowest_value", I_(1)], ["highest_value", I_(2)], ["null_count", I_(0)], ["disposition", S_("age")]]}
+
+
+# ----------------------------------------------------------------------------------------------
+# bookkeeping
+def nontrivial_key(case, obs):
+    cols = _built(obs)
+    if cols is None:
+        return None
+    if case["kind"] == "flat":
+        return "flat:" + case["cls"] + repr([x for x in case["kw"] if x[0] != "identity"])
+    return "schema:" + repr(([[x for x in c["kw"] if x[0] != "identity"] for c in case["cols"]], case["aliases"], case["pk"], case["stats"], case.get("focus")))
+
+
+def _form_of(kw):
+    d = dict((a, b) for a, b in kw)
+    t = d.get("type")
+    if t is None or t == ["n"] or t == MISSING:
+        return "untyped"
+    if t[0] == "ty":
+        return "member"
+    u = str(t[1]).upper()
+    for k in ("ARRAY<", "DECIMAL(", "VARCHAR[", "BLOB["):
+        if u.startswith(k):
+            return k[:-1].lower() + "-form"
+    return "zero" if u in ("0", "VARIANT", "MISSING") else "base"
+
+
+def classify(case, obs):
+    yield "kind:" + case["kind"] + ((":" + case["cls"]) if case["kind"] == "flat" else "")
+    if case.get("focus"):
+        yield "focus:" + case["focus"]
+    specs = case["cols"] if case["kind"] == "schema" else [{"kw": case["kw"]}]
+    if case["kind"] == "schema":
+        yield "columns=%d" % len(specs)
+        if case["pk"] != ["n"]:
+            yield "with:primary-key"
+        if case["aliases"] != ["l", []]:
+            yield "with:schema-aliases"
+    for s in specs:
+        yield "type:" + _form_of(s["kw"])
+        for k, v in s["kw"]:
+            if k not in ("name", "type", "identity"):
+                yield "with:" + k + (":" + v[0] if k == "default" else "")
+    if _built(obs) is None:
+        yield "column-definition-rejected"
+
+
+TECHNIQUE = ("Coq proof over an executable model of FlatColumn.__init__ / to_dict / from_dict / to_json / from_json / to_flatcolumn "
+             "(field list regenerated from the dataclasses) + model/implementation correspondence evaluated in Coq + attribute-by-attribute oracle")
+LEVEL_TEXT = ("Machine-checked Coq theorems: for every well-formed column (any values in the free attributes) the dictionary and the JSON round trip restore "
+              "every declared attribute, and every well-formed schema its name, aliases, primary key and columns; flattening keeps the listed attributes; "
+              "validate (Model/C05) and the description of the restored schema coincide with the original's. The type attribute of untyped columns is excluded "
+              "(known finding F-C16-4b) and refuted on a witness. The model is tied to orso/schema.py by running real schemas over every type-name form x each "
+              "optional attribute (and random combinations) through all five operations and evaluating the model on the same inputs inside Coq; an "
+              "attribute-by-attribute, type-strict oracle on the implementation supplies replayable failing inputs.")
+LEVEL_NOTE = ("Trusted: Coq kernel + vm_compute; the hand-written model; Model/C06 from_name for the re-parse of type names (ASCII); OrsoTypes.parse (C07) and "
+              "orjson's leaf serialisation enter as section parameters with the round-trip hypotheses stated in the theorems, instantiated in the correspondence "
+              "by the results observed on the real functions. Partial: type of untyped columns (F-C16-4b); candidate findings F-C16-6..10 are guarded by explicit "
+              "input classes (see notes/C16.md). NaN values are not generated. validate is compared by the oracle on a record battery, its model is C05's.")
+DESIGN_REF = "DESIGN.md section 8, C16"
+COQ_IMPORTS = "From Orso Require Import Base.C16_Defs Gen.C16_Fields Model.C16."
+COQ_CHECKS = {"schema": "c16_schema_check", "flat": "c16_flat_check"}
+COQ_SHOW = {"schema": "c16_schema_show", "flat": "c16_flat_show"}
+RULE = ("schemas of 1-4 FlatColumns built through the real constructor from keyword arguments: type given as every name form (member names in any letter case, "
+        "enum members, DECIMAL(p,s), VARCHAR[n], BLOB[n], ARRAY<T>, untyped, 0/VARIANT, a few invalid names) x optional attributes (aliases, default drawn from "
+        "per-type pools incl. Decimal/bytes/date/text-to-parse, description, disposition by member and by value, non-nullable, statistics, identity, length, "
+        "precision, scale, element type, origin, expectations) x schema aliases / primary key / statistics; exhaustive one-column sweep of every form x each "
+        "attribute alone and all together; all six column classes for to_flatcolumn; a case is non-trivial when every column definition was accepted; "
+        "distinct by the case without its random identities")
+TRUSTED = [
+    "C16 model (coq/Model/C16.v): a column is its attribute dictionary over the regenerated field list; FlatColumn.__init__ as collect/normalise steps",
+    "Model/C06.v from_name (re-parse of type names, ASCII text), Model/C05.v validate (the restored schema is projected onto C05's column view)",
+    "modelled, not verified: dataclasses.asdict, orjson (native JSON forms modelled, other leaves observed), OrsoTypes.parse (observed), DataFrame.description per column",
+    "harness: value canonicalisation in tools/props/C16.py enc() (Decimal by normalised value, floats by bits, everything else by class and repr)",
+]
+ASSUMPTIONS = [
+    "theorem hypotheses: parse is the identity on a stored truthy default (dictionary path) and restores it from its JSON form (JSON path); statistics and other free attributes survive JSON (native JSON values do, proved)",
+    "names and aliases within one schema are distinct (DataFrame.description looks columns up by name)",
+    "NaN defaults / statistics are outside the claim (NaN != NaN)",
+]
